@@ -100,7 +100,7 @@ def gen_cfg(rng, exact_lr, max_epochs):
         "rlr_cooldown": rng.randint(0, 2),
         "factor": rng.choice(EXACT_FACTORS if exact_lr else GENERAL_FACTORS),
         "log10_eps": rng.choice([-8, -8, -3, -2, -1.5]),
-        "log10_lr": rng.choice([None, None, -1, -2, -3] if exact_lr else [None, -1, -2.5, -0.3]),
+        "log10_lr": rng.choice([None, None, -1, -2, -3, 0, 0.0] if exact_lr else [None, -1, -2.5, -0.3, 0.0]),
         "opt_lr": rng.choice([0.1, 0.5, 1.0, 0.25] if exact_lr else [0.1, 0.03, 0.7, 1.7]),
     }
     return cfg
